@@ -22,7 +22,8 @@ RULE = ("Hypothesis assembles BlackbirdProgram objects the way the repository's 
 ASSUMPTIONS = ["positional lists have no Blackbird syntax and are not generated (DESIGN.md 3.3)", "arrays are 2-D as the property says"]
 BUDGET = {"quick": (2000, 4), "thorough": (64000, 16)}
 
-_EXT_F = [-0.0, 0.0, 5e-324, -5e-324, 2.2250738585072014e-308, 1e300, -1e300, 1e-300, 1.7976931348623157e308, 0.1, -1.5, 1e22, 1e16, 123456789.123456789]
+_EXT_F = [3.1416, 1.5708, 3.14159265, 0.785398, 1.0471975512, 3.1415927410125732, -1.5707963, 0.5235988, 0.3926991, 6.2831853,
+          -0.0, 0.0, 5e-324, -5e-324, 2.2250738585072014e-308, 1e300, -1e300, 1e-300, 1.7976931348623157e308, 0.1, -1.5, 1e22, 1e16, 123456789.123456789]
 _EXT_I = [0, 1, -1, 2 ** 63 - 1, -2 ** 63, 2 ** 53 + 1, -7, 10 ** 18]
 
 
